@@ -502,6 +502,73 @@ func runC12() int {
 		}
 		defer w.Close()
 		ad := netconf.NewXML2sdcpbConfigAdapter(w.DS.VerifSchemaClient())
+		// one document holding every leaf-list (first value each) and every scalar leaf of the container: each must
+		// come out under its own path with its own value (several leaf-lists of one container share a context)
+		func() {
+			var sb strings.Builder
+			sb.WriteString(`<data><types xmlns="urn:verif:vm">`)
+			for _, t := range c12Types() {
+				if len(t.Values) == 0 || t.Kind == "empty" || t.Kind == "identityref" {
+					continue
+				}
+				els := []string{t.Values[0]}
+				if t.IsLL {
+					els = strings.Split(t.Values[0], ",")
+				}
+				for _, e := range els {
+					fmt.Fprintf(&sb, "<%s>%s</%s>", t.Leaf, e, t.Leaf)
+				}
+			}
+			sb.WriteString("</types></data>")
+			doc := etree.NewDocument()
+			if err := doc.ReadFromString(sb.String()); err != nil {
+				return
+			}
+			xmlEvals++
+			var notis []*sdcpb.Notification
+			var terr error
+			pan := ""
+			func() {
+				defer func() {
+					if r := recover(); r != nil {
+						pan = fmt.Sprintf("%v", r)
+					}
+				}()
+				notis, terr = ad.Transform(context.Background(), doc)
+			}()
+			cas := map[string]any{"input_form": "xml", "document": sb.String()}
+			if pan != "" || terr != nil {
+				rep.Add(&Violation{Clause: "valid-value-refused", Sig: "valid-value-refused:combined-document:in=xml:out=notification", Detail: fmt.Sprintf("the XML adapter refused / panicked on a document with all leaves of the container: %v %s", terr, pan), Case: cas, Engine: "E3-inputs"})
+				return
+			}
+			for _, t := range c12Types() {
+				if len(t.Values) == 0 || t.Kind == "empty" || t.Kind == "identityref" {
+					continue
+				}
+				var got []string
+				for _, n := range notis {
+					for _, up := range n.GetUpdate() {
+						if CanonPath(up.GetPath()) == P("types", t.Leaf).String() {
+							got = append(got, t.canonTVFor(up.GetValue()))
+						}
+					}
+				}
+				g := fmt.Sprintf("<%d updates>", len(got))
+				if t.IsLL {
+					if len(got) == 1 && strings.HasPrefix(got[0], "[") {
+						g = got[0]
+					} else {
+						g = LL(got...)
+					}
+				} else if len(got) == 1 {
+					g = got[0]
+				}
+				if want := t.denote(t.Values[0]); g != want {
+					rep.Add(&Violation{Clause: "value-changed", Sig: fmt.Sprintf("value-changed:%s:%s:in=xml-combined:out=notification", t.Kind+map[bool]string{true: "-leaflist", false: ""}[t.IsLL], t.Leaf),
+						Detail: fmt.Sprintf("in a document with all leaves of the container, %s arrives as %q (expected %q)", t.Leaf, g, want), Case: cas, Engine: "E3-inputs"})
+				}
+			}
+		}()
 		for _, t := range c12Types() {
 			for _, v := range t.Values {
 				var sb strings.Builder
